@@ -787,4 +787,98 @@ def check_C18(run):
     run.assumptions += ["equality of the two feature builds up to MacroSep tokens is tested on every input (both builds of the implementation, both configurations of the model); proved: the guard predicate"]
 
 
-CHECKS = {"C01": check_C01, "C04": check_C04, "C06": check_C06, "C07": check_C07, "C12": check_C12, "C13": check_C13, "C14": check_C14, "C10": check_C10, "C16": check_C16, "C17": check_C17, "C18": check_C18, "C09": check_C09, "C05": check_C05, "C03": check_C03, "C02": check_C02, "C19": check_C19}
+def c11_inputs(run, rng):
+    n = tier_n(run, 12000, 300000)
+    ins = gen.open_code(rng.fork("open"), n, 10)
+    ins += gen.lexeme_stream(rng.fork("lexemes"), 3 * n)
+    ins += [s for s in gen.regression_corpus() + gen.test_strings() if gen.is_macro_free(s)]
+    ins += [s for s in gen.unicode_stress(rng.fork("uni"), n // 3) if gen.is_macro_free(s)]
+    A = gen.OPEN_ATOMS
+    # every ordered pair of open-code atoms (symbol pairs, literal/suffix adjacency, keyword neighbourhoods)
+    pairs = [a + b for a in A for b in A]
+    ins += pairs
+    # statement position of '*' and datalines: each atom after each statement context
+    pre = ["", ";", "a ", "a;", "a; ", "/*c*/", "datalines;\n1\n;", "cards4;\nx\n;;;;", "x=1;\n", "'s'", "1 ", "$f1. ", "a /*c*/ ", ";/*c*/"]
+    post = ["", ";", " c;", "\n1 2\n;", " x", "*", ";* c;"]
+    ins += [p_ + a + q for p_ in pre for a in A for q in post]
+    r3 = rng.fork("tri")
+    k = tier_n(run, 20000, 600000)
+    ins += [A[r3.below(len(A))] + A[r3.below(len(A))] + A[r3.below(len(A))] for _ in range(k)]
+    if run.tier == "thorough":
+        alpha = [" ", "\n", ";", "a", "x", "e", "1", ".", "'", "\"", "&", "%", "(", "/", "*", "d", "t", "-", "<", "=", "\u044b", "$", "0", "f"]
+        ins += [s for s in gen.exhaustive_small(alpha, 4) if gen.is_macro_free(s)]
+    seen = set()
+    out = []
+    for s in ins:
+        if s not in seen:
+            seen.add(s)
+            out.append(s)
+    return out
+
+
+def check_C11(run):
+    import reflex
+    rng = Rng(run.seed).fork("C11")
+    coq_part(run, "C11")
+    try:
+        exe = coqbuild.build_model()
+    except CoqFailure as e:
+        exe = None
+        run.pending_break = ("model-build", e.detail[:600])
+    T = impl.tables("debug")
+    ins = c11_inputs(run, rng)
+    if exe is None:
+        settle_break(run)
+        return
+    refs = reflex.run(exe, ins)
+    keep = [i for i, r in enumerate(refs) if r is not None]
+    ins = [ins[i] for i in keep]
+    refs = [refs[i] for i in keep]
+    run.cov["macro_free_inputs"] = len(ins)
+    shapes = collections.Counter()
+    for r in refs:
+        for t in r["toks"]:
+            shapes[T.tt_name.get(int(t[0]), t[0]) if t and t[0].isdigit() else "?"] += 1
+    run.cov["reference_token_types"] = dict(shapes.most_common())
+    run.cov["reference_error_inputs"] = sum(1 for r in refs if r["errs"])
+    # model = implementation (whole lexer, byte for byte), so the theorems about the model speak about this code
+    sub = ins[:: max(1, len(ins) // tier_n(run, 20000, 200000))]
+    correspond(run, exe, sub, ("debug", "release"), T, None, stream="macro-free")
+    for variant in ("debug", "release"):
+        cases = impl.run_lex(variant, ins, mode="lex")
+        nbad = 0
+        outcomes = collections.Counter()
+        for c, r, s_ in zip(cases, refs, ins):
+            outcomes[c.outcome] += 1
+            run._distinct.update(bigram_keys(c))
+            msg = reflex.diff(r, c, T)
+            if msg:
+                nbad += 1
+                if nbad <= 4:
+                    def still(x, _v=variant):
+                        rr = reflex.run(exe, [x], jobs=1)
+                        if not rr or rr[0] is None:
+                            return False
+                        cc = impl.run_lex(_v, [x], jobs=1, mode="lex")
+                        return bool(cc) and reflex.diff(rr[0], cc[0], T) is not None
+                    small = shrink_input(s_, still)
+                    rr = reflex.run(exe, [small], jobs=1)
+                    cc = impl.run_lex(variant, [small], jobs=1, mode="lex")
+                    m2 = reflex.diff(rr[0], cc[0], T) if rr and rr[0] is not None and cc else None
+                    run.violation("reference", f"[{variant}] macro-free input {small!r}: {m2 or msg}", src=small,
+                                  extra={"original": s_[:500], "reference": rr[0] if rr else None})
+        run.count("macro-free:" + variant, len(cases))
+        run.cov["streams"]["macro-free:" + variant]["outcomes"] = dict(outcomes)
+        run.cov["streams"]["macro-free:" + variant]["differences_from_reference"] = nbad
+    run.sample({"source": ins[len(ins) // 2]})
+    run.sample({"source": ins[-1][:200]})
+    run.cov["rule"] = ("macro-free strings only (decided by the extracted Coq predicate macro_free): lexemes spelled at random from their grammars (names, formats, numbers, literals+suffixes, comments, datalines, symbols), random concatenations of %d open-code atoms, every ordered "
+                       "atom pair, every atom in 14 statement-position contexts x 7 followers, sampled triples, Unicode stress, macro-free corpus/test strings; "
+                       "each lexed by the implementation (debug, release) and read by the extracted reference lexer; (type, channel, byte, payload) of every "
+                       "token, (kind, byte) of every error and the literal buffer compared" % len(gen.OPEN_ATOMS))
+    run.assumptions += ["the reference lexer Spec/RefLex.v is the executable form of the open-code grammar (DESIGN 6.2); proved about it: maximal whitespace/ampersand runs, first-closer comment extent, statement-position rule for '*'",
+                        "lexer = reference on macro-free text is established by execution of the extracted reference against the implementation, not by a theorem (partial)"]
+    settle_break(run)
+
+
+CHECKS = {"C11": check_C11, "C01": check_C01, "C04": check_C04, "C06": check_C06, "C07": check_C07, "C12": check_C12, "C13": check_C13, "C14": check_C14, "C10": check_C10, "C16": check_C16, "C17": check_C17, "C18": check_C18, "C09": check_C09, "C05": check_C05, "C03": check_C03, "C02": check_C02, "C19": check_C19}
